@@ -105,6 +105,10 @@ func envDirName() string {
 
 var envDirCounter int
 
+// p2CreatePaths, if set, rewrites the list of input paths handed to Create
+// (repeats, other spellings); the set itself stays what it is.
+var p2CreatePaths func(dir string, paths []string) []string
+
 // newP2Env materialises the set and runs the real par2.Create.
 func newP2Env(set scen.Set, base string, g int) (*p2env, error) {
 	root, err := os.MkdirTemp("", "p2-")
@@ -132,9 +136,13 @@ func newP2Env(set scen.Set, base string, g int) (*p2env, error) {
 	if p2PreCreate != nil {
 		p2PreCreate(e.dir, e.idx, e.paths)
 	}
+	createPaths := e.paths
+	if p2CreatePaths != nil {
+		createPaths = p2CreatePaths(e.dir, e.paths)
+	}
 	var cerr error
 	if pi := core.Protect(func() {
-		cerr = par2.Create(e.idx, e.paths, par2.CreateOptions{SliceByteCount: set.SliceSize, NumParityShards: set.Blocks, NumGoroutines: g})
+		cerr = par2.Create(e.idx, createPaths, par2.CreateOptions{SliceByteCount: set.SliceSize, NumParityShards: set.Blocks, NumGoroutines: g})
 	}); pi != nil {
 		return e, fmt.Errorf("Create panicked: %s [%s]", pi.Msg, pi.Frame)
 	}
